@@ -19,6 +19,7 @@ from __future__ import annotations
 
 import ast
 import builtins as _builtins
+import hashlib
 import re
 from dataclasses import dataclass, field
 from fractions import Fraction
@@ -27,7 +28,8 @@ from .cfg import walk_shallow
 from .core import AnalysisError, norm
 from .index import ClassInfo, FuncInfo, Module, dotted_parts
 
-MAX_PATHS = 64
+MAX_PATHS = 40
+_LOOP_TOK_FULL = re.compile(r"[\w.\[\], ()]{0,12}@L\d+_\d+")
 MAX_INLINE = 4
 
 
@@ -222,6 +224,9 @@ class SymV(V):
     """opaque symbolic value derived from parameters; ``text`` is canonical"""
 
     def __init__(self, text, length=None, param=False, free=False):
+        if len(text) > 72:
+            toks = sorted(set(_LOOP_TOK_FULL.findall(text)))
+            text = text[:36] + "~" + hashlib.md5(text.encode()).hexdigest()[:8] + "".join("," + t for t in toks)
         self.text = text
         self.length = length
         self.param = param  # directly a parameter of the rule / helper
@@ -565,6 +570,7 @@ SYMBOLIC = {
 HARMLESS_METHODS = {"append", "extend", "insert", "update", "pop", "remove", "clear", "sort", "reverse", "add", "setdefault",
                     "discard", "index", "count", "copy", "items", "keys", "values", "get", "join", "format", "split", "tolist",
                     "subset", "toarray", "reshape", "astype", "item", "flatten", "bit_length", "startswith", "endswith"}  # fmt: skip
+IDENTITY_FUNCS = {"array", "asarray", "convert_like", "cast_like", "cast", "copy", "deepcopy", "unwrap", "toarray"}
 SUSPICIOUS_METHODS = {"decomposition", "compute_decomposition", "queue", "_impl", "expand", "__call__", "_flatten_and_queue"}
 _LOOP_TOK = re.compile(r"@L\d+")
 
@@ -742,17 +748,24 @@ class Scanner:
         self._family = fam
         return fam
 
-    def coarse(self, key):
-        """coarse form of a key: refinements dropped, custom controlled ops folded into C(base),
-        ChangeOpBasis / Prod components dropped"""
+    def coarse(self, key, strip=None):
+        """coarse form of a key: custom controlled ops folded into C(base), ChangeOpBasis / Prod
+        components dropped; the literal refinement ``Cls[word]`` is dropped for every class when
+        ``strip`` is None, else only for the class names in ``strip`` (classes that appear
+        unrefined on one of the two sides: aggregated per class)"""
         fam = self.family()
-        key = re.sub(r"\[[^\]]*\]", "", key)
+        if strip is None:
+            key = re.sub(r"\[[^\]]*\]", "", key)
+        else:
+            key = re.sub(r"(\w+)\[[^\]]*\]", lambda m: m.group(1) if m.group(1) in strip else m.group(0), key)
         if key.startswith("ChangeOpBasis"):
             return "ChangeOpBasis"
         if key.startswith("Prod"):
             return "Prod"
 
         def rec(k):
+            if "[" in k:
+                return k
             m = re.fullmatch(r"(\w+)\((.*)\)", k)
             if m:
                 inner = rec(m.group(2))
@@ -929,6 +942,16 @@ class Scanner:
             ta, tb = tb, ta
         return CondV(f"{ta}{sym}{tb}", neg=neg)
 
+    def is_structural(self, v):
+        """a condition on the *shape* of the arguments (lengths, literal hyperparameters), as opposed
+        to one computed from run-time data (math.allclose(...), control_values[i])"""
+        if isinstance(v, ConstV):
+            return True
+        if not isinstance(v, CondV):
+            return False
+        t = re.sub(r"\b(int|floordiv|mod|min|max|pow|div|truthy|not|and|or)\(", "", v.text)
+        return "(" not in t.replace("(", "", t.count("(") - t.count("(")) if False else not re.search(r"[A-Za-z_\]]\(", t)
+
     def loop_variant(self, text, run):
         return any(lv in text for lv in run.loopvars)
 
@@ -1006,6 +1029,8 @@ class Scanner:
         if isinstance(base, SymV):
             return SymV(f"{base.text}.{attr}", free=base.free)
         if isinstance(base, OpV):
+            if attr in ("op_type", "params"):
+                return base if attr == "op_type" else SymV(f"<{base.key}>.params")
             return SymV(f"<{base.key}>.{attr}")
         if isinstance(base, ModV):
             r = self.ix._member(base.mod, attr)  # noqa: SLF001
@@ -1215,7 +1240,13 @@ class Scanner:
         return SymV(f"({self.vtext(a)}{sym}{self.vtext(b)})")
 
     def _seq(self, v):
-        return isinstance(v, SymV) and (v.length is not None or re.search(r"wires|\[[^\]]*:[^\]]*\]$", v.text) is not None)
+        if not isinstance(v, SymV):
+            return False
+        if v.length is not None:
+            return True
+        if re.match(r"(num|n)_", v.text):
+            return False
+        return re.search(r"(^|[._])wires$|\[[^\]]*:[^\]]*\]$", v.text) is not None
 
     def ev_subscript(self, e, fr, run):
         base = self.ev(e.value, fr, run)
@@ -1293,6 +1324,7 @@ class Scanner:
         if all(isinstance(k, ast.Constant) and isinstance(k.value, str) for k in e.keys):
             return MapV({k.value: self.ev(v, fr, run) for k, v in zip(e.keys, e.values)})
         d = DictV()
+        seen_text = set()
         for k, v in zip(e.keys, e.values):
             if k is None:  # {**other}
                 o = self.ev(v, fr, run)
@@ -1315,7 +1347,12 @@ class Scanner:
                 continue
             # two displays of one key overwrite (python dict semantics), the resource counter adds
             # equal abstract keys only after abstractify; literal duplicates are overwritten
-            d.set(key, self.to_count(cv), v)
+            kt = norm(k)
+            if key in d.items and kt not in seen_text:
+                d.add(key, self.to_count(cv), v)
+            else:
+                d.set(key, self.to_count(cv), v)
+            seen_text.add(kt)
         return d
 
     def ev_comp(self, e, fr, run):
@@ -1507,6 +1544,8 @@ class Scanner:
             d = DictV(opaque=True)
             d.why = "defaultdict/Counter built from a value that is not understood"
             return d
+        if t.split(".")[-1] in IDENTITY_FUNCS and args and isinstance(args[0], (SymV, TupleV, NumV, ConstV)):
+            return args[0]
         for a in list(args) + list(kwargs.values()):
             if isinstance(a, OpV) and a.em is not None and run.mode == "body":
                 run.unres(f"operator passed to external function {t}")
@@ -1627,7 +1666,7 @@ class Scanner:
                 o = args[0] if args else None
                 if isinstance(o, DictV):
                     for k, c in o.items.items():
-                        base.set(k, c, o.nodes.get(k))
+                        base.set(k, MANY if (run.mult or run.opt) else c, o.nodes.get(k))
                     base.opaque |= o.opaque
                 elif o is not None and not (isinstance(o, MapV) and not o.items):
                     base.opaque = True
@@ -1741,8 +1780,8 @@ class Scanner:
                 return self.emit_value(_wrap(kind, x.key), e, run, wires=w, fuzzy=fuzzy, extra=extra)
             if isinstance(x, SymV) and x.param and not x.free and not curried:
                 return self.emit_value(_wrap(kind, "$"), e, run, fuzzy=fuzzy, extra=extra)
-            if isinstance(x, SymV) and not x.free and not curried and "." in x.text and x.text.rsplit(".", 1)[-1] not in SUSPICIOUS_METHODS:
-                return self.emit_value(_wrap(kind, "$"), e, run, fuzzy=fuzzy, extra=extra)  # base.base, op.hyperparameters[...]
+            if isinstance(x, SymV) and not x.free and not curried and x.text.rsplit(".", 1)[-1] not in SUSPICIOUS_METHODS:
+                return self.emit_value(_wrap(kind, "$"), e, run, fuzzy=fuzzy, extra=extra)  # base.base, hyperparameters["base"]
             if x is None:
                 run.unres(f"{nm}() without operand") if run.mode == "body" else None
                 return UnkV(nm)
@@ -1840,6 +1879,10 @@ class Scanner:
         if nm in ("register_resources", "add_decomps"):
             return UnkV(nm)
         # ---- a helper of the repository
+        if f.name in IDENTITY_FUNCS and f.module.name.startswith(("pennylane.math", "pennylane.numpy")) and args and isinstance(
+            args[0], (SymV, TupleV, NumV, ConstV)
+        ):
+            return args[0]
         if run.mode == "body":
             if f.cls is None and self.may_emit(f):
                 return self.inline(f, args, kwargs, starkw, e, run)
@@ -2088,7 +2131,7 @@ class Scanner:
                     finally:
                         run.opt.pop()
                 return v
-            d = self.branch(pred, run) if pred is not None else None
+            d = self.branch(pred, run, allow_fork=self.is_structural(pred)) if pred is not None else None
             if d is True:
                 return fire(target)
             if d is False:
@@ -2234,8 +2277,7 @@ class Scanner:
                         try:
                             self.exec_block(blk, fr, run)
                         except (_Return, _LoopCtl, _Abort):
-                            if run.mode == "body":
-                                run.unres("return/break under a loop-variant condition")
+                            run.unres("return/break under a loop-variant condition")
                 finally:
                     run.opt.pop()
         elif isinstance(st, (ast.For, ast.AsyncFor)):
@@ -2344,8 +2386,7 @@ class Scanner:
             try:
                 self.exec_block(st.body, fr, run)
             except _LoopCtl:
-                if run.mode == "body":
-                    run.unres("break/continue in a loop")
+                run.unres("break/continue in a loop")
         finally:
             run.mult.pop()
             run.loopvars.pop()
@@ -2551,6 +2592,7 @@ class Scanner:
             for p in ast.walk(fn.node):
                 for c in ast.iter_child_nodes(p):
                     parents[c] = p
+            m.uses = []  # the syntactic scan below covers what the executor recorded for a named outcome
             for n in ast.walk(fn.node):
                 if isinstance(n, ast.Name) and n.id == m.var and isinstance(n.ctx, ast.Load):
                     role, cur = "other", n
@@ -2645,6 +2687,9 @@ class Scanner:
                 v = DictV()
             if isinstance(v, DictV):
                 p.declared = v
+                if p.unresolved:
+                    v.opaque = True
+                    v.why = v.why or p.unresolved[0]
                 if v.opaque:
                     ok = False
                     ri.declared_why.append(v.why or "resource dict partly opaque")
